@@ -278,7 +278,8 @@ func generateWrappers(
 			in := inMap(v)
 			var out []reflect.Value
 			if fm.memoized {
-				out = memoized(in)
+				// the cached slice is shared: work on a copy
+				out = append([]reflect.Value(nil), memoized(in)...)
 			} else {
 				out = fv.Call(in)
 			}
@@ -365,7 +366,8 @@ func generateWrappers(
 			in := inMap(v)
 			var out []reflect.Value
 			if lookup != nil {
-				out = lookup(in)
+				// the cached slice is shared: work on a copy
+				out = append([]reflect.Value(nil), lookup(in)...)
 			} else {
 				out = fv.Call(in)
 			}
